@@ -31,6 +31,7 @@ RULE = ("labelled graphs with 2-30 points, 1-8 overlapping labels covering all p
 ASSUMPTIONS = ["label order of with_labels is judged only when the caller's list is in original order; the label->mask binding is judged always",
                "the two bounding-box labellers construct new points and are outside the re-indexing clause"]
 DECIDING_TAPS = ["with_labels", "labeller", "Labelled.invariant"]
+REPLAY_PATHS = ['menpo/shape/test', 'menpo/landmark/test']      # suite replay (thorough tier): the repository's own tests under these monitors
 SHARDS = {"quick": 8, "thorough": 16}
 
 _CTX = [None]
